@@ -282,9 +282,9 @@ C11d(cx, s, nh, h1) ==
 C11e(cx, s, nh, h1) ==
   V(s.fin /\ Alive(s) /\ nh = "ok" /\ ValidlySkipped(cx, s) # {},
     \A j \in ValidlySkipped(cx, s) : \A u \in Ups(cx.c, j) :
-       u \in DOMAIN s.outs =>
+       u \in DOMAIN CurOuts(cx, s) =>
           /\ EKey(u, j) \in DOMAIN h1
-          /\ ~Altered(cx.c, j, h1[EKey(u, j)], s.outs[u]))
+          /\ ~Altered(cx.c, j, h1[EKey(u, j)], CurOuts(cx, s)[u]))
 
 (***************************************************************************)
 (* C12  Re-evaluating an unchanged project does nothing                    *)
